@@ -42,14 +42,14 @@ fn transformed(ctx: &mut Ctx, universe: &str, stmts: &[E], pairs: bool) {
     ctx.describe(&text);
     let bytes = match pipeline::compile_source(&text) { Ok(b) => b, Err(_) => { ctx.count("compile_rejected", 1); return } };
     let base = match codec::read(&bytes) { Ok(p) => p, Err(_) => return };
-    // harness consistency: M on the compiler's own layout agrees with R on the source (a disagreement
-    // between two harness models is a harness bug, counted and reported as such)
+    // M on the compiler's own layout versus R on the source. A disagreement is NOT a C05 violation: if the
+    // real VM agrees with M (checked below for every layout), the compiler mistranslated the program
+    // (C01's business); if it does not, the VM-vs-M comparison reports it. It is counted, so that a
+    // defect of one of the two harness models would be noticed in the evidence of the unchanged tree.
     let r = refsem::run(stmts);
     let m0 = refvm::run(&base, 20_000);
     if r.status != Status::Unspec && m0.status != Status::Unspec && (r.status != m0.status || r.out != m0.out) {
-        ctx.count("model_disagreements_R_vs_M", 1);
-        ctx.violation("harness/models-disagree", "reference semantics R and abstract machine M disagree on a compiled program (harness self-check)",
-            json!({"text": text, "R": {"status": format!("{:?}", r.status), "stdout": r.out}, "M": {"status": format!("{:?}", m0.status), "stdout": m0.out, "reason": m0.reason}}));
+        ctx.count("compiled_program_meaning_differs_from_source_semantics(M_vs_R)", 1);
     }
     let mut reference: Option<(bool, String)> = None;
     let t = text.clone();
